@@ -10,6 +10,8 @@
 -/
 import Gozod.Model.Prim
 import Gozod.Model.Str
+import Gozod.Model.StrU
+import Gozod.Model.PrimMethodsSpec
 import Gozod.Model.NumChecks
 import Gozod.Drv.C10
 import Gozod.Drv.C16
@@ -67,6 +69,10 @@ def specAll {P O T V} (env : Env P O T V) (cs : List (Check P O)) (v : V) : Bool
   (List.range cs.length).all fun k => !failsAt env cs k v
 
 def handleLine (line : String) : String :=
+  if line.startsWith "c01 methods" then
+    let off := Gozod.PrimMethodsSpec.methodOffenders
+    (if off.isEmpty then "methods-ok" else " ; ".intercalate off) ++ "\t-"
+  else
   let (lhs, impl) := match line.splitOn " @ " with
     | [a, b] => (a, some b)
     | _ => (line, none)
@@ -87,9 +93,9 @@ def handleLine (line : String) : String :=
         match inp with
         | none => "bad-op"
         | some x =>
-          let m := renderOut hex (parse Str.env i x)
+          let m := renderOut hex (parse StrU.env i x)
           let acc := match x with
-            | .val v | .ptr v => if specAll Str.env cs v then some (hex (seenAt Str.env cs cs.length v)) else none
+            | .val v | .ptr v => if specAll StrU.env cs v then some (hex (seenAt StrU.env cs cs.length v)) else none
             | _ => none
           m ++ "\t" ++ specVerdict acc impl
       | _ => "bad-op"
